@@ -47,7 +47,7 @@ CONSTANTS MaxLen,     \* longest chain of filters explored
                                     \* "full" | "lite" | "tiny" | "off"
           Shapes,     \* action shapes explored in this run (subset of AllShapes)
           Flavours,   \* subset of {"sim","igl","iglmix","logged"}
-          Envs        \* subset of {"one","same","diff"}
+          Envs        \* subset of {"one","same","diff","samediff"}
 
 VARIABLES case,     \* the environment as generated (never changes)
           acts,     \* acts[n][i]: current representation of the i-th action of interaction n
@@ -228,7 +228,7 @@ Rebind(R, old, new, fin) ==
 
 ----------------------------------------------------------------------------
 (* THE CATALOGUE: per shape two sets of three distinct actions of the same form *)
-AllShapes == {"scalar", "string", "cat", "dense", "densecat", "nested", "sparse", "sparsecat", "sparsecatk", "sparsenest"}
+AllShapes == {"scalar", "string", "cat", "dense", "densecat", "nested", "sparse", "sparsecat", "sparsecatk", "sparsenest", "sparsepart"}
 ShapeSets(sh) ==
   CASE sh = "scalar"   -> << <<Num(1), Num(2), Num(3)>>, <<Num(2), Num(5), Num(0)>> >>
     [] sh = "string"   -> << <<Str("a"), Str("b"), Str("c")>>, <<Str("c"), Str("d"), Str("a")>> >>
@@ -245,6 +245,10 @@ ShapeSets(sh) ==
                               <<Map({Ent("x", Cat(3))}), Map({Ent("x", Cat(1)), Ent("y", Num(2))}), Map({Ent("x", Cat(1)), Ent("y", Num(3))})>> >>
     [] sh = "sparsecatk" -> << <<Map({Ent("kind", Cat(1)), Ent("size", Num(1))}), Map({Ent("kind", Cat(2))}), Map({Ent("kind", Cat(3)), Ent("size", Num(2))})>>,   \* sparsecat with ordinary key names
                                <<Map({Ent("kind", Cat(3))}), Map({Ent("kind", Cat(1)), Ent("size", Num(2))}), Map({Ent("kind", Cat(1)), Ent("size", Num(3))})>> >>
+    [] sh = "sparsepart" -> \* sparse actions of which only SOME carry the nested value: a step may change some actions of an
+                            \* interaction and leave others (in set 2 the FIRST one) as they are
+                            << <<Map({Ent("x", NSq(<<1, 2>>))}), Map({Ent("y", Num(1))}), Map({Ent("x", NSq(<<2, 2>>)), Ent("y", Num(2))})>>,
+                               <<Map({Ent("y", Num(2))}), Map({Ent("x", NSq(<<1, 2>>))}), Map({Ent("x", NSq(<<0, 2>>)), Ent("y", Num(1))})>> >>
     [] sh = "sparsenest" -> << <<Map({Ent("x", NSq(<<1, 2>>)), Ent("y", Num(1))}), Map({Ent("x", NSq(<<0, 2>>))}), Map({Ent("x", NSq(<<2, 2>>)), Ent("y", Num(2))})>>,
                                <<Map({Ent("x", NSq(<<3, 0>>))}), Map({Ent("x", NSq(<<1, 1>>)), Ent("y", Num(1))}), Map({Ent("x", NSq(<<1, 1>>))})>> >>
 
@@ -252,7 +256,7 @@ ShapeSets(sh) ==
 RewardKinds(sh) == {"list", "binary", "disc", "discrev", "discpart", "fn"}
                    \cup (IF sh = "dense" THEN {"hamming"} ELSE {}) \cup (IF sh = "scalar" THEN {"l1"} ELSE {})
 
-EnvUse(env) == CASE env = "one" -> <<1>> [] env = "same" -> <<1, 1>> [] env = "diff" -> <<1, 2, 1>>
+EnvUse(env) == CASE env = "one" -> <<1>> [] env = "same" -> <<1, 1>> [] env = "diff" -> <<1, 2, 1>> [] env = "samediff" -> <<1, 1, 2>>
 
 (* the reward object of interaction n; mul / off make the feedbacks differ from the rewards *)
 MkR(rk, n, as, mul, off) ==
@@ -302,9 +306,19 @@ Singles(ids)   == [g \in DOMAIN ids |-> <<ids[g]>>]
 (* in BatchSafe, core.py 1138-1140: Unbatch, Finalize, Batch(size of the first batch)); Unbatch needs a batch           *)
 Compatible(st) == IF batched THEN st.f \in {"unbatch", "finalize"} ELSE st.f # "unbatch"
 
+(* pipes.Flatten decides per POSITION of a dense row, from the first row it sees, what is spliced (pipes/filters.py 222,    *)
+(* 232-235): dense actions (also the vectors Densify makes) must be nested at the same places to be flattened at all.   *)
+(* Sparse rows are flattened per KEY (226, 246) and may or may not carry a nested key - those chains are in the domain. *)
+NestedAt(a) == CASE a.t = "seq" -> {<<ToString(p), Len(a.v[p].v)>> : p \in {q \in DOMAIN a.v : a.v[q].t = "seq"}}
+                 [] a.t = "sd"  -> {<<e.s, Len(e.v[1].v)>> : e \in {x \in a.m : x.v[1].t = "seq"}}
+                 [] OTHER -> {}
+FlattenOK(st) == st.f = "flatten" /\ acts[1][1].t \in {"seq", "sd"} =>
+                    \A n \in DOMAIN acts : \A i \in DOMAIN acts[n] : NestedAt(acts[n][i]) = NestedAt(acts[1][1])
+
 Do(st) ==
   /\ Len(hist) < MaxLen
   /\ Compatible(st)
+  /\ FlattenOK(st)
   /\ LET fin  == st.f = "finalize"
          newA == [n \in DOMAIN acts |-> [i \in DOMAIN acts[n] |-> ActT(st, acts[n][i])]]
      IN  /\ \A n \in DOMAIN acts : Distinct(newA[n])    \* DOMAIN GUARD: the step re-represents, it does not merge actions
